@@ -750,6 +750,9 @@ class Run:
                         if kk == 'set' and rng.random() < 0.4: items = sorted(set(sh.partners(oid, key)) - set(pool)) if rng.random() < 0.5 else []
                         burst.append({'k': 'coll_' + kk, 'o': oid, 'key': list(key), 'items': items, 'via': rng.choice(['list', 'single', 'op']), 'noreads': True})
                     if rng.random() < 0.8: burst.append({'k': rng.choice(['commit', 'end_ok', 'flush']), 'noreads': True})
+                    # half of the bursts start on a cold cache (a fresh session, nothing read): the calls go through the partial loads of
+                    # `add` / `remove` and the full load of an assignment with changes pending
+                    if rng.random() < 0.5: burst.insert(0, {'k': 'end_ok', 'noreads': True}); self.count('gen:toggle-burst:cold')
                     self.queued_ops = burst[1:]
                     self.count('gen:toggle-burst')
                     return dict(burst[0], rs=rs)
